@@ -267,6 +267,14 @@ func ruleR071(c *Ctx) {
 								return false
 							}
 						}
+						// the other error may be kept in a field (source.err != nil)
+						if sel, ok := ast.Unparen(be.X).(*ast.SelectorExpr); ok && isErrorType(info.TypeOf(sel)) {
+							if fs, ok := info.Selections[sel]; ok && fs.Kind() == types.FieldVal {
+								if y, ok := ast.Unparen(be.Y).(*ast.Ident); ok && y.Name == "nil" {
+									return false
+								}
+							}
+						}
 					}
 				}
 				return true
